@@ -73,6 +73,9 @@ def case_coq(c, obs, mask):
         if ev["t"] in ("now", "tick"):
             evs.append(ctuple("%s %s" % ("ENow" if ev["t"] == "now" else "ETick", cN(ev["now"])), ev_obs_coq(o)))
             continue
+        if ev["t"] == "modroute":
+            evs.append(ctuple("EModRoute %s %s" % (cnat(ev["ri"]), matcher_coq(ev["m"])), ev_obs_coq(o)))
+            continue
         con = "ELine" if ev["t"] == "line" else "EAgg"
         evs.append(ctuple("%s %s" % (con, cbytes(bytes.fromhex(ev["b"]))), ev_obs_coq(o)))
     keys = None
